@@ -1,5 +1,5 @@
 // ===== proportion.rs under contract =====
-//@item src/proportion.rs struct Stats derive=Clone,Copy
+//@item src/proportion.rs struct Stats derive=Clone,Copy expect_derive=Default
 impl Stats {
     pub closed spec fn pop(self) -> usize { self.population }
     pub closed spec fn succ(self) -> usize { self.successes }
